@@ -6,9 +6,11 @@ mod edits_run;
 mod fmt_run;
 mod front;
 mod heap_run;
+mod hir_dump;
 mod lex_run;
 mod lir_dump;
 mod lsp_run;
+mod mark_run;
 mod mir_dump;
 mod mir_types;
 mod mirsem;
@@ -41,9 +43,11 @@ fn main() {
     "fmt-run" => fmt_run::main(rest),
     "front" => front::main(rest),
     "heap-run" => heap_run::main(rest),
+    "hir-dump" => hir_dump::main(rest),
     "lex-run" => lex_run::main(rest),
     "lir-dump" => lir_dump::main(rest),
     "lsp-run" => lsp_run::main(rest),
+    "mark-run" => mark_run::main(rest),
     "mir-dump" => mir_dump::main(rest),
     "mir-types" => mir_types::main(rest),
     "mir-run" => mirsem::main(rest),
